@@ -1598,6 +1598,21 @@ def b_sample_cell(S):
     return out
 
 
+def b_unit_vector_compare(S):
+    """`compare_unit_vector_orientation` (the comparison SHARP TURNS is built on): the order of its guards -- opposite-facing, dot product close to 1 (identical
+    directions, where rounding can push the product a hair ABOVE 1), outside the domain of arccos, angle beyond the threshold. The norm, the dot product, the
+    closeness test and the angle are parameters (floating point lives there)."""
+    return translate_function(
+        S[GENERAL], "compare_unit_vector_orientation", "compare_unit_vector_orientation", {"vec_1": "V", "vec_2": "V", "threshold_angle": "Rat"}, "Bool",
+        {"np.linalg.norm(vec_1 + vec_2) < np.sqrt(2)": "(opposite vec_1 vec_2)", "np.dot(vec_1, vec_2)": "(dot vec_1 vec_2)", "np.isclose(dot_product, 1)": "(close_to_one dot_product)",
+         "np.isnan(dot_product)": "(is_nan dot_product)", "np.arccos(dot_product)": "(arccos dot_product)", "np.rad2deg(rad_angle)": "(rad2deg rad_angle)"},
+        types={"np.linalg.norm(vec_1 + vec_2) < np.sqrt(2)": "Bool", "np.dot(vec_1, vec_2)": "Rat", "dot_product": "Rat", "np.isclose(dot_product, 1)": "Bool", "np.isnan(dot_product)": "Bool",
+               "np.arccos(dot_product)": "Rat", "rad_angle": "Rat", "np.rad2deg(rad_angle)": "Rat", "deg_angle": "Rat"},
+        extra_params=[("{V}", "Type"), ("opposite", "V → V → Bool"), ("dot", "V → V → Rat"), ("close_to_one", "Rat → Bool"), ("is_nan", "Rat → Bool"), ("arccos", "Rat → Rat"),
+                      ("rad2deg", "Rat → Rat")],
+        slice_from="if np.linalg.norm(vec_1 + vec_2)", default_num="Rat")
+
+
 def b_dedupe(S):
     """`filter_non_unique_traces`: the key of a trace is its WKT at `int(-log10(snap))` decimals (a parameter of type K); the first trace with
     a key is kept, later ones with the same key are dropped, order preserved"""
@@ -2540,13 +2555,13 @@ ITEMS: List[Item] = [
     Item("CalcBins", AZIMUTH, ["C15"], b_calc_bins),
     Item("JunctionShift", GENERAL, ["C02", "C16"], b_junction_shift),
     Item("NodeJunctions", GENERAL, ["C02", "C10"], b_node_junctions, extra_modules=[TVALS]),
-    Item("IntersectionFilter", GENERAL, ["C02", "C11"], b_intersection_filter),
-    Item("GeneralNodes", GENERAL, ["C02", "C11"], b_general_nodes, deps=["IntersectionFilter"]),
+    Item("IntersectionFilter", GENERAL, ["C02", "C11", "C03"], b_intersection_filter),
+    Item("GeneralNodes", GENERAL, ["C02", "C11", "C03"], b_general_nodes, deps=["IntersectionFilter"]),
     Item("ValidatorTable", TVALS, ["C09", "C13", "C02"], b_validator_table, extra_modules=[TVAL]),
     Item("ValidateStep", TVAL, ["C09", "C13"], b_validate_step),
     Item("ValidationPass", TVAL, ["C09", "C13"], b_validation_pass),
     Item("RunValidation", TVAL, ["C09", "C13"], b_run_validation),
-    Item("UnderlapValidator", TVALS, ["C10", "C13"], b_underlap_validator),
+    Item("UnderlapValidator", TVALS, ["C10", "C13", "C11"], b_underlap_validator),
     Item("ValidationUtils", TVU, ["C10", "C16"], b_validation_utils),
     Item("SharpCorners", TVALS, ["C10"], b_sharp_corners),
     Item("ValidatorMethods", TVALS, ["C10", "C02"], b_validator_methods),
@@ -2560,9 +2575,10 @@ ITEMS: List[Item] = [
     Item("IndexMargins", GENERAL, ["C16"], b_index_margins, extra_modules=[PROX]),
     Item("CropPipeline", GENERAL, ["C07", "C04", "C14", "C18"], b_crop_pipeline, deps=["CropHelpers"]),
     Item("LineDataCache", LINEDATA, ["C08", "C15", "C11"], b_line_data, extra_modules=[GENERAL]),
-    Item("ZCoordinates", GENERAL, ["C03", "C07", "C09", "C11"], b_z_coordinates),
+    Item("ZCoordinates", GENERAL, ["C03", "C07", "C09", "C11", "C01"], b_z_coordinates),
     Item("ValidationCaches", TVAL, ["C02", "C13"], b_validation_caches),
     Item("SampleCell", GRID, ["C18"], b_sample_cell),
+    Item("UnitVectorCompare", GENERAL, ["C10"], b_unit_vector_compare),
     Item("Cli", CLI, ["C19"], b_cli),
     Item("ErrorColumn", TVAL, ["C19", "C13"], b_error_column),
     Item("DetermineIntersect", REL, ["C12"], b_determine_intersect),
